@@ -49,6 +49,11 @@ impl CountMinRow {
         // zero each counter
         self.0.iter_mut().for_each(|v| *v = 0)
     }
+
+    #[cfg(transparencies_stretto_verif)]
+    pub(crate) fn verif_bytes(&self) -> &[u8] {
+        &self.0
+    }
 }
 
 impl Index<usize> for CountMinRow {
@@ -152,6 +157,11 @@ impl CountMinSketch {
     #[inline]
     pub(crate) fn clear(&mut self) {
         self.rows.iter_mut().for_each(|row| row.clear())
+    }
+
+    #[cfg(transparencies_stretto_verif)]
+    pub(crate) fn verif_parts(&self) -> (&[CountMinRow; DEPTH], [u64; DEPTH], u64) {
+        (&self.rows, self.seeds, self.mask)
     }
 }
 
